@@ -628,10 +628,10 @@ func c13Friendly(c *ctx, op *worldOp) {
 
 func runC13(c *ctx) {
 	u := newUniverse()
-	c.rep.Rule = "random walks (structured + hostile operations over all 23 functions, deliveries/refunds, 1 in 12 calls with an injected dependency failure) over 1-3 shard worlds; EVERY call runs three times concurrently on worlds with equal configuration and deep-copied state: A = the walk's world (function objects reused for the whole walk, main goroutine), B = a long-lived replica (reused objects, other goroutine), C = a world built by the real factory for this call (fresh objects, other goroutine); the input is built over ONE backing array (caller, arguments, recipient adjacent, every slice with spare capacity over its neighbours, Arguments with spare slots). Monitors on the implementation: input-mutated (backing array, all slice headers, spare slots, deep copy), nondeterministic (canonical serialisation of status/error text/VMOutput/all accounts of all shards identical across A,B,C), prefix-spare-capacity and prefix-changed (every []byte field of every function object by reflection + roleKeyPrefix/noncePrefix by linkname: len == cap, constant value, same array, after every call), monitor-selftest. Every A execution is re-evaluated in the Coq model with proj_all (complete output, post-state, dependency-call count). distinct = distinct (world state, operation). PARTIAL: aliasing inside math/big, generated protobuf code and the runtime is only observed through these effects."
+	c.rep.Rule = "random walks (structured + hostile operations over all 23 functions, deliveries/refunds, 1 in 12 calls with an injected dependency failure) over 1-3 shard worlds; EVERY call runs three times concurrently on worlds with equal configuration and deep-copied state: A = the walk's world (function objects reused for the whole walk, main goroutine), B = a long-lived replica (reused objects, other goroutine), C = a world built by the real factory for this call (fresh objects, other goroutine); the input is built over ONE backing array (caller, arguments, recipient adjacent, every slice with spare capacity over its neighbours, Arguments with spare slots). Monitors on the implementation: input-mutated (backing array, all slice headers, spare slots, deep copy), nondeterministic (canonical serialisation of status/error text/VMOutput/all accounts of all shards identical across A,B,C), prefix-spare-capacity and prefix-changed (every []byte field of every function object by reflection + roleKeyPrefix/noncePrefix by linkname: len == cap, constant value, same array, after every call), monitor-selftest. Every A execution is re-evaluated in the Coq model (status: ok/error/panic and return code; determinism and purity themselves are judged by the monitors on the implementation, so observables that belong to other properties are not compared here). distinct = distinct (world state, operation). PARTIAL: aliasing inside math/big, generated protobuf code and the runtime is only observed through these effects."
 	c.header = execHeader
 	c.caseType = "xcase"
-	c.mismatchExpr = "xmismatches (proj_all) cases"
+	c.mismatchExpr = "xmismatches ({| p_gas := false; p_transfers := false; p_logs := false; p_retdata := false; p_state := false; p_deps := false |}) cases"
 	c.perFile = 250
 	nWorlds, ops := 6, 250
 	if c.thorough() || c.widen {
